@@ -1,6 +1,8 @@
 package props
 
 import (
+	"crypto/md5"
+	"crypto/sha1"
 	"bytes"
 	"crypto/sha256"
 	"encoding/hex"
@@ -423,6 +425,21 @@ func (x *c20) nut19(where, path, body string, first resp, errCode int) {
 	if g.code == 200 && g.raw == first.raw {
 		x.viol("nut19/"+where+"/get-served-from-cache", "GET %s was answered with the cached POST response", path)
 	}
+	// ... nor a GET whose path variable is a digest of the cached request (any client can compute those; a cache shared
+	// between endpoints and keyed by a digest would answer it): sha256 / sha1 / md5 over the usual ways of joining
+	// method, path and body
+	for _, pre := range []string{"POST" + path, path, "", "POST " + path, "POST" + path + "\n"} {
+		in := []byte(pre + body)
+		h256, h1, h5 := sha256.Sum256(in), sha1.Sum(in), md5.Sum(in)
+		for _, id := range []string{hex.EncodeToString(h256[:]), hex.EncodeToString(h1[:]), hex.EncodeToString(h5[:]), hex.EncodeToString(h256[:8])} {
+			for _, gp := range []string{"/v1/keys/", "/v1/mint/quote/bolt11/", "/v1/melt/quote/bolt11/"} {
+				r := x.call("GET", gp+id, "\x00nobody")
+				if r.code == 200 {
+					x.viol("nut19/"+where+"/get-by-digest-of-cached-request-answered-200", "GET %s<digest of the cached %s request> was answered 200: %.120q", gp, where, r.raw)
+				}
+			}
+		}
+	}
 }
 
 func shaHex(s string) string {
@@ -774,6 +791,16 @@ func (x *c20) armed() {
 		return
 	}
 	w.LN.Settle(qh)
+	// outputs that do have a stored signature, for the restore request (a lookup that finds something)
+	signedOuts := u.Outputs(x.act, 4, 2, 1, 1)
+	if r := x.call("POST", "/v1/mint/bolt11", fmt.Sprintf(`{"quote":%q,"outputs":%s}`, qid, outsJSON(signedOuts))); r.code != 200 {
+		signedOuts = nil
+	}
+	qid, qh = x.mintQuote(8, "")
+	if qid == "" {
+		return
+	}
+	w.LN.Settle(qh)
 	mk := func() []struct{ name, method, path, body string } {
 		inv := w.LN.NewExternalInvoice(2)
 		return []struct{ name, method, path, body string }{
@@ -783,9 +810,14 @@ func (x *c20) armed() {
 			{"meltquote", "POST", "/v1/melt/quote/bolt11", fmt.Sprintf(`{"request":%q,"unit":"sat"}`, inv.Request)},
 			{"checkstate", "POST", "/v1/checkstate", jsonStr(map[string]any{"Ys": []string{mintops.UnknownY}})},
 			{"restore", "POST", "/v1/restore", fmt.Sprintf(`{"outputs":%s}`, outsJSON(u.Outputs(x.act, 1)))},
+			{"restore-signed", "POST", "/v1/restore", fmt.Sprintf(`{"outputs":%s}`, outsJSON(signedOuts))},
 			{"info", "GET", "/v1/info", "\x00nobody"},
 		}
 	}
+	// the queries whose answer is a pure function of the store: a storage failure may turn the answer into the generic
+	// error, never into another 200
+	pure := map[string]bool{"mintquote-state": true, "checkstate": true, "restore-signed": true}
+	baseline := map[string]string{}
 	judge := func(name, how string, r resp) {
 		if r.pan != nil {
 			return
@@ -809,6 +841,11 @@ func (x *c20) armed() {
 		}
 	}
 	for _, rq := range mk() {
+		if pure[rq.name] {
+			if b := x.call(rq.method, rq.path, rq.body); b.code == 200 {
+				baseline[rq.name] = b.raw
+			}
+		}
 		// count the calls of a fault-free dry run on a request that is refused anyway? No: use a generous bound and stop
 		// when the fault was not reached.
 		for k := 0; k < 12; k++ {
@@ -841,6 +878,9 @@ func (x *c20) armed() {
 					break
 				}
 				judge(rq.name, fmt.Sprintf("a storage error injected at MintDB call %d (persistent=%v)", k, persistent), r)
+				if b, ok := baseline[rq.name]; ok && cur.body == rq.body && cur.path == rq.path && r.pan == nil && r.code == 200 && r.raw != b {
+					x.viol("storage-failure-answered-200-with-other-content/"+rq.name, "%s with a storage error injected at MintDB call %d (persistent=%v) was answered 200 with %.160q; without the failure the answer is %.160q", rq.name, k, persistent, r.raw, b)
+				}
 				if rq.name == "mint" && r.code == 200 {
 					// the quote got issued: take a new paid quote for the next round
 					qid, qh = x.mintQuote(8, "")
